@@ -18,38 +18,27 @@ Theorem C18_generation : forall (g : graph), wf g ->
   (forall i p, In p (parents g i) -> gen g p < gen g i) /\
   (forall a d, anc g a d -> a <> d -> gen g a < gen g d) /\
   (forall ps, gens (g ++ [ps]) = gens g ++ [gen_of (gens g) ps]).
-Proof.
-  intros g W. split; [exact (gen_spec g W)|]. split; [intros i p; now apply gen_parent_lt|].
-  split; [intros a d H N; apply gen_sanc_lt; [assumption|now split]|]. exact (gens_snoc g).
-Qed.
+Proof. exact generation_thm. Qed.
 
 (** is_ancestor_pos (worklist, visited set, position and generation cut-offs) terminates
     within its fuel and answers exactly ancestry, for every graph and every pair. *)
 Theorem C18_is_ancestor : forall (g : graph) (a d : nat), wf g -> d < length g ->
   exists b, is_ancestor_pos g a d = Some b /\ (b = true <-> anc g a d).
-Proof.
-  intros g a d W L. exists (ancb g a d). split; [now apply is_ancestor_pos_ok|].
-  now apply ancb_spec.
-Qed.
+Proof. exact is_ancestor_thm. Qed.
 
 (** heads_pos on a strictly descending candidate list (its documented precondition) returns
     exactly the candidates of which no other candidate is a descendant, in the same order. *)
 Theorem C18_heads_pos : forall (g : graph) (cands : list nat), wf g -> sdesc cands ->
   heads_pos g cands = Some (heads_of g cands) /\
   forall x, In x (heads_of g cands) <-> maximal_in g (fun y => In y cands) x.
-Proof.
-  intros g cands W SD. split; [now apply heads_pos_ok|]. intros x. now apply heads_of_spec.
-Qed.
+Proof. exact heads_pos_thm. Qed.
 
 (** heads (any candidate list, duplicates allowed): the maximal candidates, strictly
     descending by position. *)
 Theorem C18_heads : forall (g : graph) (cands : list nat), wf g ->
   exists r, heads g cands = Some r /\ sdesc r /\
     forall x, In x r <-> maximal_in g (fun y => In y cands) x.
-Proof.
-  intros g cands W. exists (spec_heads g cands). split; [now apply heads_ok|].
-  split; [apply spec_heads_sdesc|]. intros x. now apply spec_heads_in.
-Qed.
+Proof. exact heads_thm. Qed.
 
 (** common_ancestors_pos (two max-heaps walked in lock step, then heads_pos): exactly the
     maximal elements of the intersection of the two ancestor closures, strictly descending. *)
@@ -57,20 +46,14 @@ Theorem C18_common_ancestors : forall (g : graph) (s1 s2 : list nat), wf g ->
   (forall s, In s s1 -> s < length g) ->
   exists r, common_ancestors_pos g s1 s2 = Some r /\ sdesc r /\
     forall x, In x r <-> maximal_in g (common_of g s1 s2) x.
-Proof.
-  intros g s1 s2 W R. exists (spec_common g s1 s2).
-  split; [now apply common_ancestors_pos_ok|]. split; [apply spec_common_sdesc|].
-  intros x. now apply spec_common_in.
-Qed.
+Proof. exact common_ancestors_thm. Qed.
 
 (** all_heads_pos: the positions that are nobody's parent = the maximal elements of the
     whole index, ascending. *)
 Theorem C18_all_heads : forall (g : graph), wf g ->
   all_heads_pos g = rev (heads_of g (all_pos_desc g)) /\
   forall x, In x (all_heads_pos g) <-> x < length g /\ forall y, ~ In x (parents g y).
-Proof.
-  intros g W. split; [now apply all_heads_pos_ok|]. intros x. now apply all_heads_in.
-Qed.
+Proof. exact all_heads_thm. Qed.
 
 (** The checker run on the implementation's recorded answers: acceptance means the answer
     satisfies the declarative graph statement ... *)
